@@ -46,8 +46,11 @@ def bindings_table(y):
 
 
 def temporal_prefix(loop_order, space):
-    if space:
-        return list(loop_order[:loop_order.index(space[0])])
+    """The loop ranks ahead of the first spatial rank IN LOOP ORDER (the space list, like the
+    time list, may be written in any order)."""
+    idx = [loop_order.index(r) for r in space if r in loop_order]
+    if idx:
+        return list(loop_order[:min(idx)])
     return list(loop_order)
 
 
